@@ -133,6 +133,18 @@ CHECKS['C03'] = {
     'design': 'DESIGN.md section 3 C03',
 }
 
+CHECKS['C14'] = {
+    'technique': 'machine-checked proof in Coq (codec round-trips, wrapper pairing from translated facts, wire composition by contract) + exhaustive algorithm x level round-trip runs',
+    'text': ("PROVED: the string codec round-trips valid UTF-8 and never decodes invalid UTF-8 to a value; the bytes codec is the identity; bincode round-trips every item type "
+             "built from the layout combinators; the DEFLATE wrappers construct the same format on both sides for both variants and both public constructors, and the other "
+             "wrappers use one format each (facts re-read from standard/src/compression on every run, incl. write_all + finish/flush before the bytes are taken); presets lie in "
+             "the libraries' level ranges; encode -> batch -> compress -> decompress -> unbatch -> decode is the identity under the library contract. NOT PROVED (third-party code): "
+             "decompress(compress b) = b for gzip/zlib/zstd/lz4/brotli themselves - checked on every run for every algorithm, brotli mode and EVERY supported level "
+             "(presets, default, explicit 0..9 / 1..22 / 0..11) on empty, tiny, incompressible, repetitive, text-like and frame-limit-sized payloads."),
+    'note': "Compression algorithms and bincode internals are third-party: exercised, not verified. serde derive order modelled.",
+    'design': 'DESIGN.md section 3 C14',
+}
+
 ALL = ['C%02d' % i for i in range(1, 18)]
 
 PENDING_REASON = "check under construction in this session (model and harness not yet committed); it will be claimed once its check is committed"
